@@ -12,6 +12,7 @@ type node struct {
 	kind    byte // L leaf, U unknown name, X malformed, F fifo, P priority, C filter
 	variant int  // U, X: which rendering
 	label   int
+	eclass  int  // L: 0 = the error text carries the label; n > 0 = the text is "probe class n failed" (shared by every leaf of that class)
 	caps    byte // b both, q request only, s response only, z neither
 	failReq bool
 	failRes bool
@@ -33,6 +34,10 @@ func b01(b bool) string {
 func (n *node) tokens(out *[]string) {
 	switch n.kind {
 	case 'L':
+		if n.eclass != 0 { // M = a leaf whose error text is that of its class, not of its label
+			*out = append(*out, "M", strconv.Itoa(n.label), string(n.caps), b01(n.failReq), b01(n.failRes), n.scope, strconv.Itoa(n.eclass))
+			break
+		}
 		*out = append(*out, "L", strconv.Itoa(n.label), string(n.caps), b01(n.failReq), b01(n.failRes), n.scope)
 	case 'U', 'X':
 		*out = append(*out, string(n.kind)+strconv.Itoa(n.variant))
@@ -93,6 +98,14 @@ func parseNode(t []string) (*node, []string, bool) {
 			return nil, nil, false
 		}
 		return &node{kind: 'L', label: l, caps: t[2][0], failReq: fq, failRes: fs, scope: t[5]}, t[6:], true
+	case t[0] == "M" && len(t) >= 7:
+		n, _, ok := parseNode(append([]string{"L"}, t[1:6]...))
+		ec, err := strconv.Atoi(t[6])
+		if !ok || err != nil || ec <= 0 {
+			return nil, nil, false
+		}
+		n.eclass = ec
+		return n, t[7:], true
 	case t[0] == "F" && len(t) >= 4:
 		agg, ok1 := p01(t[2])
 		k, err := strconv.Atoi(t[3])
@@ -245,7 +258,11 @@ const rootOnlyBase = 100
 func (n *node) json(root bool) string {
 	switch n.kind {
 	case 'L':
-		return fmt.Sprintf(`{"verif.Probe": {%s"label": %d, "caps": "%c", "failReq": %t, "failRes": %t}}`, scopeJSON(n.scope), n.label, n.caps, n.failReq, n.failRes)
+		et := ""
+		if n.eclass != 0 {
+			et = fmt.Sprintf(`, "etext": %d`, n.eclass)
+		}
+		return fmt.Sprintf(`{"verif.Probe": {%s"label": %d, "caps": "%c", "failReq": %t, "failRes": %t%s}}`, scopeJSON(n.scope), n.label, n.caps, n.failReq, n.failRes, et)
 	case 'U':
 		name, _ := json.Marshal(unknownNames[n.variant%len(unknownNames)])
 		return fmt.Sprintf(`{%s: {"modifiers": []}}`, name)
